@@ -1,6 +1,8 @@
 package lists
 
 import (
+	"unicode/utf8"
+
 	"github.com/lmorg/murex/lang"
 	"github.com/lmorg/murex/lang/types"
 )
@@ -33,11 +35,7 @@ func cmdLeft(p *lang.Process) error {
 	switch {
 	case left > 0:
 		p.Stdin.ReadArray(p.Context, func(b []byte) {
-			if len(b) < left {
-				err = aw.Write(b)
-			} else {
-				err = aw.Write(b[:left])
-			}
+			err = aw.Write(b[:leftChars(b, left)])
 
 			if err != nil {
 				p.Stdin.ForceClose()
@@ -48,11 +46,7 @@ func cmdLeft(p *lang.Process) error {
 	case left < 0:
 		left = left * -1
 		p.Stdin.ReadArray(p.Context, func(b []byte) {
-			if len(b) < left {
-				err = aw.WriteString("")
-			} else {
-				err = aw.Write(b[:len(b)-left])
-			}
+			err = aw.Write(b[:rightChars(b, left)])
 
 			if err != nil {
 				p.Stdin.ForceClose()
@@ -98,11 +92,7 @@ func cmdRight(p *lang.Process) error {
 	switch {
 	case right > 0:
 		p.Stdin.ReadArray(p.Context, func(b []byte) {
-			if len(b) < right {
-				err = aw.Write(b)
-			} else {
-				err = aw.Write(b[len(b)-right:])
-			}
+			err = aw.Write(b[rightChars(b, right):])
 
 			if err != nil {
 				p.Stdin.ForceClose()
@@ -113,11 +103,7 @@ func cmdRight(p *lang.Process) error {
 	case right < 0:
 		right = right * -1
 		p.Stdin.ReadArray(p.Context, func(b []byte) {
-			if len(b) < right {
-				err = aw.WriteString("")
-			} else {
-				err = aw.Write(b[right:])
-			}
+			err = aw.Write(b[leftChars(b, right):])
 
 			if err != nil {
 				p.Stdin.ForceClose()
@@ -141,6 +127,28 @@ func cmdRight(p *lang.Process) error {
 	}
 
 	return aw.Close()
+}
+
+// leftChars returns the length in bytes of the first n characters of b
+// (len(b) if b holds fewer than n characters)
+func leftChars(b []byte, n int) int {
+	i := 0
+	for ; n > 0 && i < len(b); n-- {
+		_, size := utf8.DecodeRune(b[i:])
+		i += size
+	}
+	return i
+}
+
+// rightChars returns the byte offset where the last n characters of b start
+// (0 if b holds fewer than n characters)
+func rightChars(b []byte, n int) int {
+	i := len(b)
+	for ; n > 0 && i > 0; n-- {
+		_, size := utf8.DecodeLastRune(b[:i])
+		i -= size
+	}
+	return i
 }
 
 func cmdPrefix(p *lang.Process) error { return cmdFix(p, true) }
